@@ -19,6 +19,7 @@ unknown replacement type, max-elements 0).  The general random schemas of schema
   (d) side    the two computable hypotheses of theorem C04_T1_choice_clause_partial (`final_applied = 0`,
               `heights_okb = true`; extracted from coq/Spec/C04.v, command c04side) hold on every case the model calls clean
 """
+import json
 import random
 import shutil
 import tempfile
@@ -491,6 +492,69 @@ def f_dev_unknown_kind(b, m0, m1, s1):
 FEATURES = {k[2:]: v for k, v in list(globals().items()) if k.startswith("f_")}
 
 
+
+# ------------------------------------------------------------------ family "revisions" (text level, implementation only)
+# Several revisions of one module loaded together; importers pin a revision (or none: the newest) and augment that
+# revision's tree.  The core model has no revisions (the registry is C13's model), so this is an oracle on the
+# implementation alone: the generator knows by construction whether some augment conflicts with / misses its target in
+# the tree of the revision it is bound to; then Process must report an error, otherwise it must be clean and EVERY tree
+# (the harness walks every key of ms.Modules, older revisions included) must be proper and free of recorded errors.
+REV_DATES = ["2019-03-03", "2020-01-01", "2021-06-15"]
+
+
+def gen_revisions(rnd):
+    r = rnd
+    dates = sorted(r.sample(REV_DATES, r.randint(2, 3)))
+    revs = {}
+    texts = []
+    for d in dates:
+        has_x = r.random() < 0.5
+        has_d = r.random() < 0.6
+        revs[d] = dict(x=has_x, d=has_d)
+        body = "    leaf a { type string; }\n"
+        if has_x:
+            body += "    leaf x { type string; }\n"
+        if has_d:
+            body += "    container d { leaf q { type string; } }\n"
+        texts.append(("base@%s.yang" % d,
+                      'module base {\n  namespace "urn:base";\n  prefix b;\n  revision %s;\n  container c {\n%s  }\n}\n' % (d, body)))
+    newest = dates[-1]
+    expect_err = False
+    added = {}      # revision -> names already added to /c by an importer
+    kinds = []
+    for i in range(r.randint(1, 3)):
+        pin = r.choice(dates + [None])
+        bound = pin or newest
+        imp = "  import base { prefix b; %s}\n" % ("revision-date %s; " % pin if pin else "")
+        augs = ""
+        for ai in range(r.randint(1, 2)):
+            k = r.choice(["x", "x", "into_d", "fresh", "same_as_other"])
+            if k == "x":
+                augs += '  augment "/b:c" { leaf x { type string; } }\n'
+                if revs[bound]["x"] or "x" in added.setdefault(bound, set()):
+                    expect_err = True
+                added.setdefault(bound, set()).add("x")
+            elif k == "into_d":
+                augs += '  augment "/b:c/b:d" { leaf y%d%d { type string; } }\n' % (i, ai)
+                if not revs[bound]["d"]:
+                    expect_err = True
+            elif k == "fresh":
+                nm = "f%d%d" % (i, r.randint(0, 9))
+                augs += '  augment "/b:c" { leaf %s { type string; } }\n' % nm
+                if nm in added.setdefault(bound, set()):
+                    expect_err = True
+                added[bound].add(nm)
+            else:
+                augs += '  augment "/b:c" { leaf shared { type string; } }\n'
+                if "shared" in added.setdefault(bound, set()):
+                    expect_err = True
+                added[bound].add("shared")
+            kinds.append("%s@%s" % (k, pin or "newest"))
+        texts.append(("ext%d.yang" % i, 'module ext%d {\n  namespace "urn:ext%d";\n  prefix e%d;\n%s%s}\n' % (i, i, i, imp, augs)))
+    r.shuffle(texts)
+    return texts, expect_err, kinds
+
+
 # ------------------------------------------------------------------ run
 def run_go(lines):
     tmp = tempfile.mkdtemp(prefix="c04cwd")
@@ -606,9 +670,49 @@ def run(res, tier, seed, proof):
             violation("a side condition of C04_T1_choice_clause_partial does not hold on a clean case: %s" % o,
                       dict(kind="side-condition", ml_case=ml_lines[i], go_case=go_lines[i], features=cases[i][2], obs=o,
                            text="\n".join(sg.render_module(x) for x in cases[i][0])))
+    # ---- family "revisions" (implementation only)
+    n_rev = 200 if tier == "quick" else 4000
+    revc = [gen_revisions(random.Random(rnd.getrandbits(64))) for _ in range(n_rev)]
+    rev_lines = ["process - %s %d %s" % (",".join(["L%d" % i for i in range(len(t))] + ["P"]), len(t),
+                                          " ".join("%s %s" % (sg.hx(fn), sg.hx(tx)) for fn, tx in t)) for t, _, _ in revc]
+    rev_go = run_go(rev_lines)
+    stats.update(revision_cases=n_rev, revision_expected_err=0, revision_clean=0, revision_trees_walked=0)
+    for (texts, expect_err, kinds), line, g in zip(revc, rev_lines, rev_go):
+        rep = dict(kind="revisions", go_case=line, augments=kinds, text="\n".join("// %s\n%s" % (fn, tx) for fn, tx in texts))
+        if not g.startswith("{"):
+            violation("revisions family: harness failure: %s" % g[:200], rep)
+            continue
+        j = json.loads(g)
+        if any(l.startswith("err") for l in j["loads"]):
+            violation("revisions family: a text was rejected: %s" % j["loads"], rep)
+            continue
+        run_ = j["runs"][-1]
+        got_err = bool(run_["errors"])
+        stats["revision_expected_err" if expect_err else "revision_clean"] += 1
+        if expect_err and not got_err:
+            bad = list(run_["treeviol"] or [])
+            violation("clean result although an augment conflicts with / misses its target in the tree of the revision it is "
+                      "bound to (lost error): %s; walker: %s" % (kinds, bad[:2]), dict(rep, treeviol=bad))
+            continue
+        if got_err and not expect_err:
+            violation("error reported although every augment applies cleanly to the revision it is bound to: %s"
+                      % run_["errors"][:2], dict(rep, errors=run_["errors"][:5]))
+            continue
+        if not got_err:
+            stats["revision_trees_walked"] += len(run_["modules"])
+            bad = list(run_["treeviol"] or [])
+            for md in run_["modules"]:
+                walk_flags(md["tree"], bad)
+            if bad:
+                violation("tree invariant violated after a clean Process (some revision's tree): %s" % "; ".join(bad[:3]),
+                          dict(rep, treeviol=bad[:10]))
     cov = dict(
-        evaluations=len(cases) + len(side_idx), distinct_nontrivial=stats["ok"] + stats["err"],
-        rule="composed module sets (m0, m1 importing m0 [and back], optional submodule m0s1): 2..5 features out of uses-in-uses, "
+        evaluations=len(cases) + len(side_idx) + n_rev, distinct_nontrivial=stats["ok"] + stats["err"],
+        rule="family `revisions` (text level, implementation only): 2..3 revisions of module base loaded together, 1..3 importers "
+             "pinning a revision (or none) and augmenting /b:c of that revision with a leaf the revision may already have, with "
+             "a leaf into a container the revision may lack, or with a name another importer of the same revision adds too; "
+             "error expected by construction iff some augment conflicts / finds no target in the tree it is bound to, else "
+             "clean and every tree (all revisions) proper.  Composed module sets (m0, m1 importing m0 [and back], optional submodule m0s1): 2..5 features out of uses-in-uses, "
              "uses-in-augment, augment-into-uses-expanded-node, submodule-with-augments, shorthand-choice-everywhere (container, "
              "list, case, grouping, augment, rpc and action input/output, notification), not-supported-under-list, augment "
              "chains in shuffled order, lazily created rpc input/output, attribute deviations on grouping instances, choices "
@@ -626,6 +730,8 @@ def run(res, tier, seed, proof):
         "'points back to its parent' and 'reachable by exactly one path / no node object shared' are checked on the "
         "implementation by the pointer-level walker of harness/go/resolve.go (treeviol) -- testing, not proof",
         "types are builtin names or unknown names (typedef resolution: C09); errors are compared by presence only",
+        "the family `revisions` has no counterpart in the core model (no revisions there): it is an oracle on the "
+        "implementation alone, the expected verdict is known to the generator by construction",
         "the order in which Process visits modules is the `order` argument of the model's Process; the check passes the "
         "implementation's order (sorted names), the theorems quantify over all orders",
     ]
@@ -633,6 +739,13 @@ def run(res, tier, seed, proof):
 
 
 def replay(rep, res):
+    if rep.get("kind") == "revisions":
+        g = run_go([rep["go_case"]])[0]
+        j = json.loads(g)
+        print(rep["text"])
+        print("errors:", j["runs"][-1]["errors"][:5])
+        print("treeviol:", j["runs"][-1]["treeviol"])
+        return 1
     g = run_go([rep["go_case"]])[0]
     m = lib.run_ml([rep["ml_case"]])[0]
     st, canon, j = sg.canon_go(g)
